@@ -139,7 +139,7 @@ def part_histories(rep):
     for h in hists.values():
         cases.append({"id": len(cases), "h": h, "observe": "last", "battery": bpath, "src": "enum"})
     # ---- 2. simulation walks ----------------------------------------------------------------------------
-    per_worker = 32 if quick else 250
+    per_worker = 24 if quick else 250
     if os.environ.get("C08_WALKS"):                  # scratch runs on a loaded machine (mutant trials): fewer walks
         per_worker = int(os.environ["C08_WALKS"])
     sim = tlc_run(pid, "C08", SIM_CFG, env={"MAXLEN": "12"}, timeout=900, tag="sim", simulate="num=%d" % per_worker,
